@@ -13,3 +13,12 @@ Theorem c13_expression :
 Proof. exact Api.c13_expression. Qed.
 Print Assumptions c13_expression.
 
+
+(* ---- static tie: no field, dereference or element assignment on the evaluation path except on the per-call pointer ---- *)
+From Coq Require Import List String. From Bexpr Require Import GoTables TieWrites. Import ListNotations.
+
+Theorem evaluation_path_writes_only_the_per_call_pointer :
+  evaluation_path_writes = [("evaluate.go", "evaluateNotPresent", "ptr.Parts")].
+Proof. exact TieWrites.evaluation_path_writes_only_the_per_call_pointer. Qed.
+Print Assumptions evaluation_path_writes_only_the_per_call_pointer.
+
